@@ -10,6 +10,25 @@ use hc::{coq, Case, Rng, Sink};
 use mithril_stm::verif_export as vx;
 use std::collections::HashMap;
 
+/// Coq printers without scope suffixes: every case term is read under `Open Scope N_scope`.
+mod cq {
+    pub fn n(x: u64) -> String {
+        x.to_string()
+    }
+    pub fn list(items: &[String]) -> String {
+        format!("[{}]", items.join("; "))
+    }
+    pub fn list_n(xs: &[u64]) -> String {
+        list(&xs.iter().map(|x| n(*x)).collect::<Vec<_>>())
+    }
+    pub fn bytes(xs: &[u8]) -> String {
+        list(&xs.iter().map(|x| x.to_string()).collect::<Vec<_>>())
+    }
+    pub fn pair(a: &str, b: &str) -> String {
+        format!("({}, {})", a, b)
+    }
+}
+
 // ------------------------------------------------------------------------------------------------
 // STM tree
 // ------------------------------------------------------------------------------------------------
@@ -55,21 +74,21 @@ mod stm {
         Lf(Vec<u8>),
         Nd(Box<S>, Box<S>),
         Junk(u64),
-        RootOf(Vec<Vec<u8>>),
+        RootRepl(u64, Vec<u8>),
     }
     impl S {
         pub fn coq(&self) -> String {
             match self {
-                S::N(p) => format!("(SN {})", coq::n(*p)),
-                S::Lf(x) => format!("(SLf {})", coq::bytes(x)),
+                S::N(p) => format!("(SN {})", cq::n(*p)),
+                S::Lf(x) => format!("(SLf {})", cq::bytes(x)),
                 S::Nd(a, b) => format!("(SNd {} {})", a.coq(), b.coq()),
-                S::Junk(k) => format!("(SJunk {})", coq::n(*k)),
-                S::RootOf(l) => format!("(SRootOf {})", coq_ll(l)),
+                S::Junk(k) => format!("(SJunk {})", cq::n(*k)),
+                S::RootRepl(q, x) => format!("(SRootRepl {} {})", cq::n(*q), cq::bytes(x)),
             }
         }
     }
     pub fn coq_ll(l: &[Vec<u8>]) -> String {
-        coq::list(&l.iter().map(|x| coq::bytes(x)).collect::<Vec<_>>())
+        cq::list(&l.iter().map(|x| cq::bytes(x)).collect::<Vec<_>>())
     }
     pub fn junk_bytes(k: u64) -> Vec<u8> {
         // 32 bytes that are no digest of anything used here
@@ -79,13 +98,14 @@ mod stm {
 
     /// committed leaf i of the tree tagged `tag`
     pub fn payload(tag: u8, i: usize) -> Vec<u8> {
-        vec![1, tag, (i >> 8) as u8, i as u8]
+        vec![1, 0, tag, (i >> 8) as u8, i as u8]
     }
     pub fn foreign(k: u64) -> Vec<u8> {
         vec![2, (k >> 16) as u8, (k >> 8) as u8, k as u8, 7]
     }
 
     pub struct Tree {
+        pub tag: u8,
         pub payloads: Vec<Vec<u8>>,
         pub t: vx::MerkleTree<vx::TreeDigest, Lf>,
         pub root: Vec<u8>,
@@ -133,10 +153,13 @@ mod stm {
                     *e = *p;
                 }
             }
-            Tree { payloads, t, root, node, pos_of }
+            Tree { tag, payloads, t, root, node, pos_of }
         }
         pub fn n(&self) -> usize {
             self.payloads.len()
+        }
+        pub fn coq_leaves(&self) -> String {
+            format!("(gl_list 1 {} {})", self.tag, self.n())
         }
     }
 
@@ -172,12 +195,12 @@ mod stm {
     pub fn model_verify(t: &Tree, v: &VIn) -> String {
         format!(
             "C09.Model.run_stm_verify {} {} {} {} {} {}",
-            coq_ll(&t.payloads),
+            t.coq_leaves(),
             v.root.1.coq(),
-            coq::n(v.nrl),
+            cq::n(v.nrl),
             coq_ll(&v.leaves),
-            coq::list(&v.vals.iter().map(|x| x.1.coq()).collect::<Vec<_>>()),
-            coq::list_n(&v.idxs)
+            cq::list(&v.vals.iter().map(|x| x.1.coq()).collect::<Vec<_>>()),
+            cq::list_n(&v.idxs)
         )
     }
 
@@ -390,7 +413,7 @@ mod stm {
                         let q = rng.below(n) as usize;
                         l2[q] = foreign(fresh);
                         let t2 = vx::merkle_tree_new(&l2.iter().map(|p| Lf::new(p)).collect::<Vec<_>>());
-                        (vx::merkle_tree_batch_commitment(&t2).root, S::RootOf(l2))
+                        (vx::merkle_tree_batch_commitment(&t2).root, S::RootRepl(q as u64, foreign(fresh)))
                     }
                     _ => {
                         // digest of (root, root): a well-formed digest that is no root
@@ -436,7 +459,7 @@ mod stm {
 
     pub fn desc(t_tag: u8, t: &Tree, v: &VIn) -> serde_json::Value {
         serde_json::json!({
-            "tree": {"leaves": t.n(), "payload_of_leaf_i": format!("[1,{},i>>8,i&255]", t_tag)},
+            "tree": {"leaves": t.n(), "payload_of_leaf_i": format!("[1,0,{},i>>8,i&255]", t_tag)},
             "root": format!("{:?}", v.root.1), "nr_leaves_claimed": v.nrl,
             "claimed_leaves": v.leaves.iter().map(hex::encode).collect::<Vec<_>>(),
             "indices": v.idxs.iter().map(|i| i.to_string()).collect::<Vec<_>>(),
@@ -502,7 +525,7 @@ mod stm {
             id,
             kind: format!("stm/{}", kind),
             desc: serde_json::json!({"tree_leaves": t.n(), "indices": idxs.iter().map(|i| i.to_string()).collect::<Vec<_>>()}),
-            model: Some(format!("C09.Model.run_stm_gen {} {}", coq_ll(&t.payloads), coq::list_n(idxs))),
+            model: Some(format!("C09.Model.run_stm_gen {} {}", t.coq_leaves(), cq::list_n(idxs))),
             impl_obs: obs,
             holds,
             why,
@@ -542,7 +565,7 @@ mod stm {
                 m2.expect = Expect::NotJudged;
             }
             let e = if m2.expect == Expect::NotJudged { Expect::NotJudged } else { Expect::Sound };
-            push_verify(sink, id, tag, t, format!("pair:{}+{}", m1.kind, m2.kind), &m2.v, e, true);
+            push_verify(sink, id, tag, t, "pair".to_string(), &m2.v, e, true);
         }
     }
 
@@ -612,10 +635,973 @@ mod stm {
     }
 }
 
+// ------------------------------------------------------------------------------------------------
+// MKProof / MKMapProof (mithril-merkle-tree over ckb-merkle-mountain-range)
+// ------------------------------------------------------------------------------------------------
+mod mmr {
+    use super::*;
+    use mithril_common::entities::BlockRange;
+    use mithril_merkle_tree::{
+        MKMap, MKMapNode, MKMapProof, MKProof, MKTree, MKTreeLeafIndexer, MKTreeLeafPosition, MKTreeNode, MKTreeStorer,
+    };
+    use serde_json::{json, Value};
+    use std::cell::RefCell;
+    use std::collections::BTreeMap;
+    use std::sync::{Arc, RwLock};
+
+    // ---- a storer that lets the harness see what the real MMR stored at which position ----
+    pub struct Inner {
+        leaves: RwLock<HashMap<Arc<MKTreeNode>, MKTreeLeafPosition>>,
+        store: RwLock<HashMap<u64, Arc<MKTreeNode>>>,
+    }
+    thread_local! { static REG: RefCell<Vec<Arc<Inner>>> = RefCell::new(vec![]); }
+    #[derive(Clone)]
+    pub struct Obs(Arc<Inner>);
+    impl MKTreeLeafIndexer for Obs {
+        fn set_leaf_position(&self, pos: MKTreeLeafPosition, node: Arc<MKTreeNode>) -> anyhow::Result<()> {
+            self.0.leaves.write().unwrap().insert(node, pos);
+            Ok(())
+        }
+        fn get_leaf_position(&self, node: &MKTreeNode) -> Option<MKTreeLeafPosition> {
+            self.0.leaves.read().unwrap().get(node).cloned()
+        }
+        fn total_leaves(&self) -> usize {
+            self.0.leaves.read().unwrap().len()
+        }
+        fn leaves(&self) -> Vec<MKTreeNode> {
+            let l = self.0.leaves.read().unwrap();
+            l.iter().map(|(leaf, position)| (position, leaf)).collect::<BTreeMap<_, _>>().into_values().map(|leaf| (**leaf).clone()).collect()
+        }
+    }
+    impl MKTreeStorer for Obs {
+        fn build() -> anyhow::Result<Self> {
+            let i = Arc::new(Inner { leaves: RwLock::new(HashMap::new()), store: RwLock::new(HashMap::new()) });
+            REG.with(|r| r.borrow_mut().push(i.clone()));
+            Ok(Obs(i))
+        }
+        fn get_elem(&self, pos: u64) -> anyhow::Result<Option<Arc<MKTreeNode>>> {
+            Ok(self.0.store.read().unwrap().get(&pos).cloned())
+        }
+        fn append(&self, pos: u64, elems: Vec<Arc<MKTreeNode>>) -> anyhow::Result<()> {
+            let mut s = self.0.store.write().unwrap();
+            for (i, e) in elems.into_iter().enumerate() {
+                s.insert(pos + i as u64, e);
+            }
+            Ok(())
+        }
+    }
+    fn take_reg() -> Vec<Arc<Inner>> {
+        REG.with(|r| std::mem::take(&mut *r.borrow_mut()))
+    }
+
+    /// symbolic description of a node (Coq type C09.Model.mspec)
+    #[derive(Clone, Debug, PartialEq)]
+    pub enum M {
+        N(u64, u64),
+        Raw(Vec<u8>),
+        Mrg(Box<M>, Box<M>),
+        Junk(u64),
+        Bag(u64, u64),
+    }
+    impl M {
+        pub fn coq(&self) -> String {
+            match self {
+                M::N(t, p) => format!("(MN {} {})", cq::n(*t), cq::n(*p)),
+                M::Raw(b) => format!("(MRaw {})", cq::bytes(b)),
+                M::Mrg(a, b) => format!("(MMrg {} {})", a.coq(), b.coq()),
+                M::Junk(k) => format!("(MJunk {})", cq::n(*k)),
+                M::Bag(t, k) => format!("(MBag {} {})", cq::n(*t), cq::n(*k)),
+            }
+        }
+    }
+    pub type BV = (Vec<u8>, M);
+    pub fn junk(k: u64) -> BV {
+        let mut r = Rng::new(0xC09_1111 + k);
+        (r.bytes(32), M::Junk(k))
+    }
+    pub fn merge(a: &[u8], b: &[u8]) -> Vec<u8> {
+        (&MKTreeNode::new(a.to_vec()) + &MKTreeNode::new(b.to_vec())).to_vec()
+    }
+    fn get_peaks(size: u64) -> Vec<u64> {
+        // positions of the peaks (only used to name the bagged right-hand-side item of honest proofs)
+        let mut peaks = vec![];
+        if size == 0 {
+            return peaks;
+        }
+        let mut pos = size;
+        let mut peak_size = u64::MAX >> size.leading_zeros();
+        let mut sum = 0;
+        while peak_size > 0 {
+            if pos >= peak_size {
+                pos -= peak_size;
+                peaks.push(sum + peak_size - 1);
+                sum += peak_size;
+            }
+            peak_size >>= 1;
+        }
+        peaks
+    }
+
+    /// one committed tree, as the real code built it
+    pub struct T {
+        pub id: u64,
+        pub tag: Option<u64>,
+        pub leaves: Vec<Vec<u8>>,
+        pub tree: Arc<MKTree<Obs>>,
+        pub root: Vec<u8>,
+        pub size: u64,
+        pub pos: Vec<u64>,
+        pub store: BTreeMap<u64, Vec<u8>>,
+        pub name: HashMap<Vec<u8>, M>,
+    }
+    impl T {
+        pub fn tagged(id: u64, tag: u64, n: usize) -> T {
+            let mut t = T::new(id, (0..n).map(|i| leaf_bytes(tag, i)).collect());
+            t.tag = Some(tag);
+            t
+        }
+        pub fn coq_leaves(&self) -> String {
+            match self.tag {
+                Some(tag) => format!("(gl_list 76 {} {})", tag, self.leaves.len()),
+                None => coq_ll(&self.leaves),
+            }
+        }
+        pub fn new(id: u64, leaves: Vec<Vec<u8>>) -> T {
+            take_reg();
+            let tree = MKTree::<Obs>::new(&leaves.iter().map(|l| MKTreeNode::new(l.clone())).collect::<Vec<_>>()).expect("MKTree::new");
+            let reg = take_reg();
+            assert_eq!(reg.len(), 1);
+            T::from_built(id, leaves, Arc::new(tree), &reg[0])
+        }
+        pub fn from_built(id: u64, leaves: Vec<Vec<u8>>, tree: Arc<MKTree<Obs>>, inner: &Inner) -> T {
+            let store: BTreeMap<u64, Vec<u8>> = inner.store.read().unwrap().iter().map(|(p, n)| (*p, n.to_vec())).collect();
+            let size = store.len() as u64;
+            let root = tree.compute_root().expect("root").to_vec();
+            let lp = inner.leaves.read().unwrap();
+            let pos: Vec<u64> = leaves.iter().map(|l| *lp.get(&MKTreeNode::new(l.clone())).expect("leaf position")).collect();
+            let mut name: HashMap<Vec<u8>, M> = HashMap::new();
+            // baggings of the peaks k.. (named first so that store positions win)
+            let peaks = get_peaks(size);
+            for k in (0..peaks.len()).rev() {
+                let mut hs: Vec<Vec<u8>> = peaks[k..].iter().map(|p| store[p].clone()).collect();
+                while hs.len() > 1 {
+                    let r = hs.pop().unwrap();
+                    let l = hs.pop().unwrap();
+                    hs.push(merge(&r, &l));
+                }
+                name.insert(hs.pop().unwrap(), M::Bag(id, k as u64));
+            }
+            for (p, b) in store.iter().rev() {
+                name.insert(b.clone(), M::N(id, *p));
+            }
+            T { id, tag: None, leaves, tree, root, size, pos, store, name }
+        }
+    }
+
+    /// a proof as the verifier sees it: bytes and symbolic description side by side
+    #[derive(Clone)]
+    pub struct P {
+        pub root: BV,
+        pub leaves: Vec<(u64, BV)>,
+        pub size: u64,
+        pub items: Vec<BV>,
+    }
+    fn node_json(b: &[u8]) -> Value {
+        json!({ "hash": b })
+    }
+    fn node_bytes(v: &Value) -> Vec<u8> {
+        v["hash"].as_array().expect("hash").iter().map(|x| x.as_u64().unwrap() as u8).collect()
+    }
+    impl P {
+        pub fn json(&self) -> Value {
+            json!({
+                "inner_root": node_json(&self.root.0),
+                "inner_leaves": self.leaves.iter().map(|(p, l)| json!([p, node_json(&l.0)])).collect::<Vec<_>>(),
+                "inner_proof_size": self.size,
+                "inner_proof_items": self.items.iter().map(|i| node_json(&i.0)).collect::<Vec<_>>(),
+            })
+        }
+        pub fn real(&self) -> MKProof {
+            serde_json::from_value(self.json()).expect("MKProof from JSON")
+        }
+        /// read a real proof, naming every node through the dictionaries of the committed trees
+        pub fn of_real(p: &MKProof, names: &dyn Fn(&[u8]) -> M) -> P {
+            let v = serde_json::to_value(p).expect("MKProof to JSON");
+            let nb = |x: &Value| -> BV {
+                let b = node_bytes(x);
+                let m = names(&b);
+                (b, m)
+            };
+            P {
+                root: nb(&v["inner_root"]),
+                leaves: v["inner_leaves"].as_array().unwrap().iter().map(|e| (e[0].as_u64().unwrap(), nb(&e[1]))).collect(),
+                size: v["inner_proof_size"].as_u64().unwrap(),
+                items: v["inner_proof_items"].as_array().unwrap().iter().map(nb).collect(),
+            }
+        }
+        pub fn coq(&self) -> String {
+            format!(
+                "(PS {} {} {} {})",
+                self.root.1.coq(),
+                cq::list(&self.leaves.iter().map(|(p, l)| cq::pair(&cq::n(*p), &l.1.coq())).collect::<Vec<_>>()),
+                cq::n(self.size),
+                cq::list(&self.items.iter().map(|i| i.1.coq()).collect::<Vec<_>>())
+            )
+        }
+        pub fn desc(&self) -> Value {
+            json!({
+                "root": format!("{:?}", self.root.1),
+                "leaves": self.leaves.iter().map(|(p, l)| format!("{} -> {}", p, show(l))).collect::<Vec<_>>(),
+                "mmr_size": self.size.to_string(),
+                "items": self.items.iter().map(|i| format!("{:?}", i.1)).collect::<Vec<_>>(),
+            })
+        }
+    }
+    fn show(l: &BV) -> String {
+        match &l.1 {
+            M::Raw(b) => format!("{:?}", String::from_utf8_lossy(b)),
+            m => format!("{:?}", m),
+        }
+    }
+
+    pub fn leaf_bytes(tag: u64, i: usize) -> Vec<u8> {
+        vec![76, (tag >> 8) as u8, tag as u8, (i >> 8) as u8, i as u8]
+    }
+    pub fn fake_bytes(k: u64) -> Vec<u8> {
+        format!("FAKE-{}", k).into_bytes()
+    }
+    pub fn coq_ll(l: &[Vec<u8>]) -> String {
+        cq::list(&l.iter().map(|x| cq::bytes(x)).collect::<Vec<_>>())
+    }
+    /// names for the nodes of one tree; leaves and unknown bytes are described as raw bytes
+    pub fn names_of<'a>(ts: &'a [&'a T]) -> impl Fn(&[u8]) -> M + 'a {
+        move |b: &[u8]| {
+            for t in ts {
+                if let Some(m) = t.name.get(b) {
+                    return m.clone();
+                }
+            }
+            M::Raw(b.to_vec())
+        }
+    }
+
+    #[derive(Clone, Copy, PartialEq, Debug)]
+    pub enum Expect {
+        Accept,
+        Reject,
+        Sound,
+    }
+
+    /// (verify accepted / rejected / panicked, contains per query)
+    pub fn run_proof(p: &P, queries: &[BV]) -> (u8, Vec<Option<bool>>) {
+        let real = p.real();
+        let r2 = real.clone();
+        let v = match hc::catch(std::panic::AssertUnwindSafe(move || r2.verify().is_ok())) {
+            Some(true) => 0,
+            Some(false) => 1,
+            None => 2,
+        };
+        let c = queries
+            .iter()
+            .map(|q| {
+                let r3 = real.clone();
+                let n = MKTreeNode::new(q.0.clone());
+                hc::catch(std::panic::AssertUnwindSafe(move || r3.contains(&[n]).is_ok()))
+            })
+            .collect();
+        (v, c)
+    }
+    fn obs_vc(v: u8, c: &[Option<bool>]) -> String {
+        match v {
+            2 => coq::ol(&[coq::oz(2)]),
+            _ => coq::ol(&[coq::ob(v == 0), coq::ol(&c.iter().map(|x| match x { Some(b) => coq::ob(*b), None => coq::oz(2) }).collect::<Vec<_>>())]),
+        }
+    }
+
+    pub struct Mutated {
+        pub kind: String,
+        pub p: P,
+        pub expect: Expect,
+    }
+
+    pub const N_MUT: u64 = 16;
+    pub fn mutate(t: &T, base: &P, rng: &mut Rng, which: u64) -> Mutated {
+        let mut p = base.clone();
+        let fresh = rng.below(1 << 20);
+        let k = p.leaves.len();
+        let j = if k > 0 { rng.below(k as u64) as usize } else { 0 };
+        let nleaves = t.leaves.len();
+        let other_node = |rng: &mut Rng, not: &[u8]| -> BV {
+            let ps: Vec<&u64> = t.store.keys().collect();
+            for _ in 0..8 {
+                let q = **rng.pick(&ps);
+                if t.store[&q] != not {
+                    return (t.store[&q].clone(), t.name[&t.store[&q]].clone());
+                }
+            }
+            junk(fresh)
+        };
+        let fake = |k: u64| -> BV { (fake_bytes(k), M::Raw(fake_bytes(k))) };
+        let (kind, expect): (&str, Expect) = match which {
+            0 if k > 0 => {
+                // the regression witness of the fixed finding: a second entry at an occupied position
+                let e = (p.leaves[j].0, fake(fresh));
+                match rng.below(3) {
+                    0 => p.leaves.push(e),
+                    1 => p.leaves.insert(0, e),
+                    _ => p.leaves.insert(j + 1, e),
+                }
+                ("dup-position-fake-leaf", Expect::Reject)
+            }
+            1 if k > 0 => {
+                let e = p.leaves[j].clone();
+                p.leaves.push(e);
+                ("dup-position-same-leaf", Expect::Accept)
+            }
+            2 if k > 0 => {
+                p.leaves[j].1 = fake(fresh);
+                ("leaf-replaced-foreign", Expect::Reject)
+            }
+            3 if k > 0 && nleaves >= 2 => {
+                let mut o = rng.below(nleaves as u64) as usize;
+                if t.leaves[o] == p.leaves[j].1 .0 {
+                    o = (o + 1) % nleaves;
+                }
+                p.leaves[j].1 = (t.leaves[o].clone(), M::Raw(t.leaves[o].clone()));
+                ("leaf-replaced-other-committed", Expect::Reject)
+            }
+            4 if k > 0 => {
+                // moved: same value, another position
+                let cands: Vec<u64> = vec![
+                    t.pos[rng.below(nleaves as u64) as usize], p.leaves[j].0 + 1, p.leaves[j].0.wrapping_sub(1), 2, t.size, t.size + 1,
+                    u64::MAX, u64::MAX - 1, 1 << 63, (1 << 63) - 1, (1u64 << 32) - 2,
+                ];
+                let mut o = *rng.pick(&cands);
+                if o == p.leaves[j].0 {
+                    o = o.wrapping_add(3);
+                }
+                p.leaves[j].0 = o;
+                ("leaf-moved", Expect::Reject)
+            }
+            5 if k >= 2 => {
+                let j2 = (j + 1 + rng.below(k as u64 - 1) as usize) % k;
+                let (a, b) = (p.leaves[j].1.clone(), p.leaves[j2].1.clone());
+                p.leaves[j].1 = b;
+                p.leaves[j2].1 = a;
+                ("leaves-swapped", Expect::Reject)
+            }
+            6 if k >= 2 => {
+                rng.shuffle(&mut p.leaves);
+                ("leaves-reordered", Expect::Accept)
+            }
+            7 if !p.items.is_empty() => {
+                let q = rng.below(p.items.len() as u64) as usize;
+                p.items[q] = if rng.coin() { junk(fresh) } else { other_node(rng, &base.items[q].0.clone()) };
+                ("item-altered", Expect::Reject)
+            }
+            8 if !p.items.is_empty() => {
+                let q = rng.below(p.items.len() as u64) as usize;
+                p.items.remove(q);
+                ("item-dropped", Expect::Reject)
+            }
+            9 if !p.items.is_empty() => {
+                let q = rng.below(p.items.len() as u64) as usize;
+                let c = p.items[q].clone();
+                p.items.insert(q, c);
+                ("item-duplicated", Expect::Reject)
+            }
+            10 => {
+                let e = if rng.coin() { junk(fresh) } else { other_node(rng, &[]) };
+                if rng.coin() { p.items.push(e) } else { p.items.insert(0, e) }
+                ("item-added", Expect::Sound)
+            }
+            11 => {
+                p.root = match rng.below(3) {
+                    0 => junk(fresh),
+                    1 => other_node(rng, &t.root.clone()),
+                    _ => (merge(&t.root, &t.root), M::Mrg(Box::new(base.root.1.clone()), Box::new(base.root.1.clone()))),
+                };
+                ("root-altered", Expect::Reject)
+            }
+            12 => {
+                let cands = [0u64, 1, t.size - 1, t.size + 1, t.size + 2, t.size * 2 + 1, 3, 7, u64::MAX, u64::MAX - 1, 1 << 63, (1 << 63) - 1];
+                let mut o = *rng.pick(&cands);
+                if o == t.size {
+                    o += 3;
+                }
+                p.size = o;
+                ("size-altered", Expect::Sound)
+            }
+            13 => {
+                // no leaf at all: the items are the peaks; vouches for nothing
+                let peaks = get_peaks(t.size);
+                p.leaves.clear();
+                p.items = peaks.iter().map(|q| (t.store[q].clone(), t.name[&t.store[q]].clone())).collect();
+                ("no-leaves-peaks-as-items", Expect::Sound)
+            }
+            14 if nleaves == 3 => {
+                // the 3-leaf root Mrg c (Mrg a b) re-read as a 2-leaf tree: c claimed at position 0
+                let ab = t.store[&2].clone();
+                p.leaves = vec![(0, (t.leaves[2].clone(), M::Raw(t.leaves[2].clone())))];
+                p.size = 3;
+                p.items = vec![(ab.clone(), t.name[&ab].clone())];
+                ("size-reinterpreted", Expect::Sound)
+            }
+            _ => {
+                p.leaves.clear();
+                ("leaves-emptied", Expect::Sound)
+            }
+        };
+        Mutated { kind: kind.into(), p, expect }
+    }
+
+    fn queries_for(t: &T, p: &P, rng: &mut Rng) -> Vec<BV> {
+        let mut q: Vec<BV> = p.leaves.iter().map(|l| l.1.clone()).collect();
+        q.truncate(6);
+        let o = rng.below(t.leaves.len() as u64) as usize;
+        q.push((t.leaves[o].clone(), M::Raw(t.leaves[o].clone())));
+        let f = rng.below(1 << 20);
+        q.push((fake_bytes(f), M::Raw(fake_bytes(f))));
+        q.push((t.root.clone(), t.name[&t.root].clone()));
+        q
+    }
+
+    fn push_proof(sink: &mut Sink, id: u64, t: &T, kind: &str, p: &P, queries: &[BV], expect: Expect, paired: bool) {
+        let (v, c) = run_proof(p, queries);
+        let acc = v == 0;
+        let committed = |b: &[u8]| t.leaves.iter().any(|l| l == b);
+        let mut why = None;
+        if acc && p.root.0 != t.root {
+            why = Some("a proof verifies although its root is not the committed root".to_string());
+        }
+        if acc && why.is_none() {
+            if let Some(l) = p.leaves.iter().find(|l| !committed(&l.1 .0)) {
+                why = Some(format!("MKProof::verify accepted a proof that vouches for {} which is no committed leaf", show(&l.1)));
+            }
+            for (q, r) in queries.iter().zip(&c) {
+                if *r == Some(true) && !committed(&q.0) {
+                    why = Some(format!("verified proof `contains` {} which is no committed leaf", show(q)));
+                }
+            }
+        }
+        if why.is_none() {
+            match expect {
+                Expect::Accept if !acc => why = Some("an honest proof does not verify".to_string()),
+                Expect::Accept if !paired && !p.leaves.iter().zip(&c).take(6).all(|(_, r)| *r == Some(true)) => {
+                    why = Some("an honest proof does not contain one of its leaves".to_string())
+                }
+                Expect::Reject if acc && !paired => why = Some("an altered proof component was accepted".to_string()),
+                _ => {}
+            }
+        }
+        sink.push(Case {
+            id,
+            kind: format!("mmr/{}", kind),
+            desc: json!({"tree_leaves": t.leaves.len(), "leaf_i": format!("[76,{:?}>>8,..&255,i>>8,i&255]", t.tag), "proof": p.desc(), "queries": queries.iter().map(show).collect::<Vec<_>>()}),
+            model: Some(format!(
+                "C09.Model.run_mk {} {} {}",
+                t.coq_leaves(),
+                p.coq(),
+                cq::list(&queries.iter().map(|q| q.1.coq()).collect::<Vec<_>>())
+            )),
+            impl_obs: obs_vc(v, &c),
+            holds: Some(why.is_none()),
+            why,
+            known: None,
+            nontrivial: t.leaves.len() >= 2,
+            key: format!("mmr/{}/{}/{}", kind, t.leaves.len(), p.coq()),
+        });
+    }
+
+    /// honest proof for the leaves with indices `sel` (as the real MKTree computes it)
+    pub fn honest(t: &T, sel: &[usize]) -> Option<P> {
+        let ls: Vec<MKTreeNode> = sel.iter().map(|i| MKTreeNode::new(t.leaves[*i].clone())).collect();
+        let tree = t.tree.clone();
+        let pr = hc::catch(std::panic::AssertUnwindSafe(move || tree.compute_proof(&ls).ok()))??;
+        let ts = [t];
+        let names = names_of(&ts);
+        let mut p = P::of_real(&pr, &names);
+        // leaves are described as raw bytes
+        for l in p.leaves.iter_mut() {
+            l.1 .1 = M::Raw(l.1 .0.clone());
+        }
+        Some(p)
+    }
+
+    fn push_gen(sink: &mut Sink, id: u64, t: &T, kind: &str, sel: &[usize]) {
+        let h = honest(t, sel);
+        let (obs, holds, why) = match &h {
+            None => (coq::ol(&[coq::oz(1)]), Some(sel.is_empty()), if sel.is_empty() { None } else { Some("proof generation failed for committed leaves".to_string()) }),
+            Some(p) => {
+                let (v, c) = run_proof(p, &p.leaves.iter().map(|l| l.1.clone()).collect::<Vec<_>>());
+                let ok = v == 0 && c.iter().all(|x| *x == Some(true)) && p.root.0 == t.root;
+                let items: Vec<String> = p
+                    .items
+                    .iter()
+                    .map(|i| match &i.1 {
+                        M::N(_, q) => coq::ol(&[coq::oz(0), coq::on(*q)]),
+                        M::Bag(_, k) => coq::ol(&[coq::oz(1), coq::on(*k)]),
+                        _ => coq::ol(&[coq::oz(2)]),
+                    })
+                    .collect();
+                (
+                    coq::ol(&[coq::oz(0), coq::oln(&p.leaves.iter().map(|l| l.0).collect::<Vec<_>>()), coq::on(p.size), coq::ol(&items), coq::ob(v == 0)]),
+                    Some(ok),
+                    if ok { None } else { Some("the generated MKProof does not verify / contain its leaves against the committed root".to_string()) },
+                )
+            }
+        };
+        sink.push(Case {
+            id,
+            kind: format!("mmr/{}", kind),
+            desc: json!({"tree_leaves": t.leaves.len(), "selected_leaf_indices": sel}),
+            model: Some(format!("C09.Model.run_mk_gen {} {}", t.coq_leaves(), cq::list_n(&sel.iter().map(|i| *i as u64).collect::<Vec<_>>()))),
+            impl_obs: obs,
+            holds,
+            why,
+            known: None,
+            nontrivial: t.leaves.len() >= 2,
+            key: format!("mmr/gen/{}/{:?}", t.leaves.len(), sel),
+        });
+    }
+
+    fn explore(sink: &mut Sink, rng: &mut Rng, t: &T, sel: &[usize], kind: &str, nmut: usize, npair: usize, all_muts: bool) {
+        if let Some(id) = sink.wants() {
+            push_gen(sink, id, t, kind, sel);
+        }
+        let mut base: Option<P> = None;
+        let muts: Vec<u64> = if all_muts { (0..N_MUT).collect() } else { (0..nmut).map(|_| rng.below(N_MUT)).collect() };
+        for w in muts {
+            let mut r = rng.fork();
+            let Some(id) = sink.wants() else { continue };
+            let b = base.get_or_insert_with(|| honest(t, sel).expect("honest proof"));
+            let m = mutate(t, b, &mut r, w);
+            let q = queries_for(t, &m.p, &mut r);
+            push_proof(sink, id, t, &m.kind, &m.p, &q, m.expect, false);
+        }
+        for _ in 0..npair {
+            let mut r = rng.fork();
+            let (w1, w2) = (rng.below(N_MUT), rng.below(N_MUT));
+            let Some(id) = sink.wants() else { continue };
+            let b = base.get_or_insert_with(|| honest(t, sel).expect("honest proof"));
+            let m1 = mutate(t, b, &mut r, w1);
+            let m2 = mutate(t, &m1.p, &mut r, w2);
+            let q = queries_for(t, &m2.p, &mut r);
+            push_proof(sink, id, t, "pair", &m2.p, &q, Expect::Sound, true);
+        }
+    }
+
+    // ---- nested map: BlockRange -> tree ----
+    #[derive(Clone)]
+    pub struct MP {
+        pub master: P,
+        pub subs: Vec<(BlockRange, MP)>,
+    }
+    fn key_bytes(k: &BlockRange) -> Vec<u8> {
+        let n: MKTreeNode = k.clone().into();
+        n.to_vec()
+    }
+    impl MP {
+        pub fn json(&self) -> Value {
+            json!({
+                "master_proof": self.master.json(),
+                "sub_proofs": self.subs.iter().map(|(k, p)| json!([serde_json::to_value(k).unwrap(), p.json()])).collect::<Vec<_>>(),
+            })
+        }
+        pub fn real(&self) -> MKMapProof<BlockRange> {
+            serde_json::from_value(self.json()).expect("MKMapProof from JSON")
+        }
+        pub fn of_real(p: &MKMapProof<BlockRange>, names: &dyn Fn(&[u8]) -> M) -> MP {
+            let v = serde_json::to_value(p).unwrap();
+            MP::of_json(&v, names)
+        }
+        fn of_json(v: &Value, names: &dyn Fn(&[u8]) -> M) -> MP {
+            let master: MKProof = serde_json::from_value(v["master_proof"].clone()).unwrap();
+            MP {
+                master: P::of_real(&master, names),
+                subs: v["sub_proofs"].as_array().unwrap().iter().map(|e| (serde_json::from_value(e[0].clone()).unwrap(), MP::of_json(&e[1], names))).collect(),
+            }
+        }
+        pub fn coq(&self) -> String {
+            format!(
+                "(MPS {} {})",
+                self.master.coq(),
+                cq::list(&self.subs.iter().map(|(k, p)| cq::pair(&cq::bytes(&key_bytes(k)), &p.coq())).collect::<Vec<_>>())
+            )
+        }
+        pub fn desc(&self) -> Value {
+            json!({"master": self.master.desc(), "subs": self.subs.iter().map(|(k, p)| json!([format!("{}", k), p.desc()])).collect::<Vec<_>>()})
+        }
+    }
+
+    pub struct Forest {
+        pub keys: Vec<BlockRange>,
+        pub subs: Vec<T>,
+        pub master: T,
+        pub map: MKMap<BlockRange, MKMapNode<BlockRange, Obs>, Obs>,
+    }
+    impl Forest {
+        pub fn new(tag: u64, sizes: &[usize]) -> Forest {
+            let keys: Vec<BlockRange> = (0..sizes.len() as u64).map(|i| BlockRange::from(i * 15..(i + 1) * 15)).collect();
+            let subs: Vec<T> = sizes.iter().enumerate().map(|(i, n)| T::tagged(i as u64 + 1, tag * 10 + i as u64, *n)).collect();
+            take_reg();
+            let entries: Vec<(BlockRange, MKMapNode<BlockRange, Obs>)> = keys.iter().cloned().zip(subs.iter().map(|t| MKMapNode::Tree(t.tree.clone()))).collect();
+            let map = MKMap::<BlockRange, MKMapNode<BlockRange, Obs>, Obs>::new(&entries).expect("MKMap::new");
+            let reg = take_reg();
+            assert_eq!(reg.len(), 1, "the map builds exactly one (master) tree");
+            let master_leaves: Vec<Vec<u8>> = keys.iter().zip(&subs).map(|(k, t)| merge(&key_bytes(k), &t.root)).collect();
+            // the master tree is inside the map: rebuild its description from the observed store
+            let store: BTreeMap<u64, Vec<u8>> = reg[0].store.read().unwrap().iter().map(|(p, n)| (*p, n.to_vec())).collect();
+            let lp = reg[0].leaves.read().unwrap();
+            let pos: Vec<u64> = master_leaves.iter().map(|l| *lp.get(&MKTreeNode::new(l.clone())).expect("master leaf position")).collect();
+            let size = store.len() as u64;
+            let root = map.compute_root().unwrap().to_vec();
+            let mut name: HashMap<Vec<u8>, M> = HashMap::new();
+            let peaks = get_peaks(size);
+            for k in (0..peaks.len()).rev() {
+                let mut hs: Vec<Vec<u8>> = peaks[k..].iter().map(|p| store[p].clone()).collect();
+                while hs.len() > 1 {
+                    let r = hs.pop().unwrap();
+                    let l = hs.pop().unwrap();
+                    hs.push(merge(&r, &l));
+                }
+                name.insert(hs.pop().unwrap(), M::Bag(0, k as u64));
+            }
+            for (p, b) in store.iter().rev() {
+                name.insert(b.clone(), M::N(0, *p));
+            }
+            drop(lp);
+            let dummy = Arc::new(MKTree::<Obs>::new(&[MKTreeNode::new(vec![0])]).unwrap());
+            take_reg();
+            let master = T { id: 0, tag: None, leaves: master_leaves, tree: dummy, root, size, pos, store, name };
+            Forest { keys, subs, master, map }
+        }
+        pub fn coq_ranges(&self) -> String {
+            cq::list(&self.keys.iter().zip(&self.subs).map(|(k, t)| cq::pair(&cq::bytes(&key_bytes(k)), &t.coq_leaves())).collect::<Vec<_>>())
+        }
+        pub fn names(&self) -> impl Fn(&[u8]) -> M + '_ {
+            move |b: &[u8]| {
+                if let Some(m) = self.master.name.get(b) {
+                    return m.clone();
+                }
+                for t in &self.subs {
+                    if let Some(m) = t.name.get(b) {
+                        // leaves of the sub-trees are described as raw bytes
+                        if t.leaves.iter().any(|l| l == b) {
+                            return M::Raw(b.to_vec());
+                        }
+                        return m.clone();
+                    }
+                }
+                M::Raw(b.to_vec())
+            }
+        }
+        pub fn honest(&self, leaves: &[Vec<u8>]) -> Option<MP> {
+            let ls: Vec<MKTreeNode> = leaves.iter().map(|l| MKTreeNode::new(l.clone())).collect();
+            let pr = self.map.compute_proof(&ls).ok()?;
+            let names = self.names();
+            Some(MP::of_real(&pr, &names))
+        }
+        pub fn committed(&self, b: &[u8]) -> bool {
+            self.subs.iter().any(|t| t.leaves.iter().any(|l| l == b)) || self.master.leaves.iter().any(|l| l == b)
+        }
+    }
+
+    fn run_map(p: &MP, queries: &[BV]) -> (u8, Vec<Option<bool>>) {
+        let real = p.real();
+        let r2 = real.clone();
+        let v = match hc::catch(std::panic::AssertUnwindSafe(move || r2.verify().is_ok())) {
+            Some(true) => 0,
+            Some(false) => 1,
+            None => 2,
+        };
+        let c = queries
+            .iter()
+            .map(|q| {
+                let r3 = real.clone();
+                let n = MKTreeNode::new(q.0.clone());
+                hc::catch(std::panic::AssertUnwindSafe(move || r3.contains(&n).is_ok()))
+            })
+            .collect();
+        (v, c)
+    }
+
+    fn all_leaf_values(p: &MP, out: &mut Vec<BV>) {
+        for l in &p.master.leaves {
+            out.push(l.1.clone());
+        }
+        for (_, s) in &p.subs {
+            all_leaf_values(s, out);
+        }
+    }
+
+    fn push_map(sink: &mut Sink, id: u64, f: &Forest, kind: &str, p: &MP, queries: &[BV], expect: Expect) {
+        let (v, c) = run_map(p, queries);
+        let acc = v == 0;
+        let mut why = None;
+        if acc && p.master.root.0 != f.master.root {
+            why = Some("a map proof verifies although its root is not the committed root".to_string());
+        }
+        if acc && why.is_none() {
+            let mut vals = vec![];
+            all_leaf_values(p, &mut vals);
+            // what a verified proof vouches for: everything `contains` answers true to
+            for (q, r) in queries.iter().zip(&c) {
+                if *r == Some(true) && !f.committed(&q.0) {
+                    why = Some(format!("verified map proof `contains` {} which is no committed leaf", show(q)));
+                }
+            }
+            let real = p.real();
+            for l in vals {
+                if real.contains(&MKTreeNode::new(l.0.clone())).is_ok() && !f.committed(&l.0) {
+                    why = Some(format!("verified map proof vouches for {} which is no committed leaf", show(&l)));
+                }
+            }
+        }
+        if why.is_none() {
+            match expect {
+                Expect::Accept if !acc => why = Some("an honest map proof does not verify".to_string()),
+                Expect::Reject if acc => why = Some("an altered map proof component was accepted".to_string()),
+                _ => {}
+            }
+        }
+        sink.push(Case {
+            id,
+            kind: format!("map/{}", kind),
+            desc: json!({"ranges": f.subs.iter().map(|t| t.leaves.len()).collect::<Vec<_>>(), "proof": p.desc(), "queries": queries.iter().map(show).collect::<Vec<_>>()}),
+            model: Some(format!("C09.Model.run_map {} {} {}", f.coq_ranges(), p.coq(), cq::list(&queries.iter().map(|q| q.1.coq()).collect::<Vec<_>>()))),
+            impl_obs: obs_vc(v, &c),
+            holds: Some(why.is_none()),
+            why,
+            known: None,
+            nontrivial: f.subs.len() >= 2,
+            key: format!("map/{}/{}", kind, p.coq()),
+        });
+    }
+
+    const N_MAPMUT: u64 = 9;
+    fn mutate_map(f: &Forest, base: &MP, rng: &mut Rng, which: u64) -> (String, MP, Expect) {
+        let mut p = base.clone();
+        let ns = p.subs.len();
+        let s = if ns > 0 { rng.below(ns as u64) as usize } else { 0 };
+        match which {
+            0 if ns > 0 => {
+                // mutate the proof of one range
+                let key = p.subs[s].0.clone();
+                let ti = f.keys.iter().position(|k| *k == key).unwrap();
+                let w = rng.below(N_MUT);
+                let m = mutate(&f.subs[ti], &p.subs[s].1.master, rng, w);
+                p.subs[s].1.master = m.p;
+                (format!("sub:{}", m.kind), p, if m.expect == Expect::Reject { Expect::Reject } else { Expect::Sound })
+            }
+            1 => {
+                let w = rng.below(N_MUT);
+                let m = mutate(&f.master, &p.master, rng, w);
+                p.master = m.p;
+                // a master entry replaced/moved breaks the linkage of its sub-proof
+                (format!("master:{}", m.kind), p, Expect::Sound)
+            }
+            2 if ns > 0 => {
+                // a proof for another committed tree hung under this key
+                let other = (0..f.subs.len()).find(|i| f.keys[*i] != p.subs[s].0);
+                match other {
+                    Some(o) => {
+                        let q = honest(&f.subs[o], &[0]).unwrap();
+                        let names = f.names();
+                        let mut q2 = q.clone();
+                        q2.root.1 = names(&q.root.0);
+                        for i in q2.items.iter_mut() {
+                            i.1 = names(&i.0);
+                        }
+                        p.subs[s].1 = MP { master: q2, subs: vec![] };
+                        ("sub-proof-of-other-range".into(), p, Expect::Reject)
+                    }
+                    None => {
+                        p.subs[s].0 = BlockRange::from(9000..9015);
+                        ("key-relabelled".into(), p, Expect::Reject)
+                    }
+                }
+            }
+            3 if ns > 0 => {
+                // a self-made tree with a foreign leaf under a committed key
+                let k = rng.below(1 << 20);
+                let t2 = T::new(99, vec![fake_bytes(k), fake_bytes(k + 1)]);
+                let mut q = honest(&t2, &[0]).unwrap();
+                let fix = |b: &BV| -> BV {
+                    if b.0 == fake_bytes(k) || b.0 == fake_bytes(k + 1) { (b.0.clone(), M::Raw(b.0.clone())) } else { (b.0.clone(), M::Mrg(Box::new(M::Raw(fake_bytes(k))), Box::new(M::Raw(fake_bytes(k + 1))))) }
+                };
+                q.root = fix(&q.root);
+                q.items = q.items.iter().map(fix).collect();
+                p.subs[s].1 = MP { master: q, subs: vec![] };
+                ("sub-proof-of-foreign-tree".into(), p, Expect::Reject)
+            }
+            4 if ns > 0 => {
+                let o = rng.below(40);
+                let mut nk = BlockRange::from(o * 15..(o + 1) * 15);
+                if nk == p.subs[s].0 {
+                    nk = BlockRange::from(600..615);
+                }
+                p.subs[s].0 = nk;
+                ("key-relabelled".into(), p, Expect::Reject)
+            }
+            5 if ns >= 2 => {
+                let s2 = (s + 1) % ns;
+                let (a, b) = (p.subs[s].0.clone(), p.subs[s2].0.clone());
+                p.subs[s].0 = b;
+                p.subs[s2].0 = a;
+                ("keys-swapped".into(), p, Expect::Reject)
+            }
+            6 if ns > 0 => {
+                p.subs.remove(s);
+                ("sub-proof-dropped".into(), p, Expect::Sound)
+            }
+            7 if ns > 0 => {
+                let c = p.subs[s].clone();
+                p.subs.push(c);
+                ("sub-proof-duplicated".into(), p, Expect::Accept)
+            }
+            _ => {
+                // an extra foreign sub-proof under a fresh key, not linked into the master proof
+                let k = rng.below(1 << 20);
+                let t2 = T::new(99, vec![fake_bytes(k)]);
+                let mut q = honest(&t2, &[0]).unwrap();
+                q.root = (q.root.0.clone(), M::Raw(q.root.0.clone()));
+                p.subs.push((BlockRange::from(9000..9015), MP { master: q, subs: vec![] }));
+                ("unlinked-foreign-sub-proof".into(), p, Expect::Reject)
+            }
+        }
+    }
+
+    pub fn run(sink: &mut Sink, rng: &mut Rng, thorough: bool) {
+        // 0. the witness of the fixed finding, always first
+        {
+            let t = T::tagged(0, 0, 5);
+            if let Some(id) = sink.wants() {
+                let mut p = honest(&t, &[1, 2]).unwrap();
+                p.leaves.push((p.leaves[0].0, (b"FAKE".to_vec(), M::Raw(b"FAKE".to_vec()))));
+                let q = vec![(b"FAKE".to_vec(), M::Raw(b"FAKE".to_vec())), (t.leaves[1].clone(), M::Raw(t.leaves[1].clone()))];
+                push_proof(sink, id, &t, "dup-position-fake-leaf", &p, &q, Expect::Reject, false);
+            }
+        }
+        // 1. exhaustive small trees: every n <= NMAX, every non-empty subset
+        let nmax = if thorough { 9 } else { 8 };
+        for n in 1..=nmax {
+            let t = T::tagged(0, n as u64, n);
+            for mask in 1u32..(1 << n) {
+                let sel: Vec<usize> = (0..n).filter(|i| mask >> i & 1 == 1).collect();
+                let (nm, np) = if thorough { (3, 1) } else { (1, if mask % 4 == 0 { 1 } else { 0 }) };
+                let all = n <= 4 && (thorough || mask % 2 == 1);
+                explore(sink, rng, &t, &sel, "exhaustive", nm, np, all);
+            }
+            if let Some(id) = sink.wants() {
+                push_gen(sink, id, &t, "gen-empty", &[]);
+            }
+        }
+        // 2. sampled sizes
+        let (ntrees, top) = if thorough { (120, 500) } else { (24, 260) };
+        for k in 0..ntrees {
+            let n = match k % 5 {
+                0 => rng.range(9, 40),
+                1 => 1 << rng.range(4, 8),
+                2 => (1 << rng.range(4, 8)) + 1,
+                3 => (1 << rng.range(4, 8)) - 1,
+                _ => rng.range(9, top),
+            } as usize;
+            let t = T::tagged(0, 1000 + k, n);
+            for s in 0..3 {
+                let mut sel: Vec<usize> = match (s + k) % 4 {
+                    0 => (0..rng.range(1, 10.min(n as u64))).map(|_| rng.below(n as u64) as usize).collect(),
+                    1 => vec![n - 1],
+                    2 => {
+                        let c = rng.range(1, 5.min(n as u64)) as usize;
+                        let mut v: Vec<usize> = (n - c..n).collect();
+                        v.push(0);
+                        v
+                    }
+                    _ => (0..rng.range(1, 30.min(n as u64))).map(|_| rng.below(n as u64) as usize).collect(),
+                };
+                sel.sort();
+                sel.dedup();
+                if rng.coin() {
+                    rng.shuffle(&mut sel);
+                }
+                explore(sink, rng, &t, &sel, "sampled", if thorough { 4 } else { 3 }, 1, false);
+            }
+        }
+        // 3. nested maps of <= 6 ranges
+        let nforests = if thorough { 60 } else { 14 };
+        for k in 0..nforests {
+            let nr = 1 + (k % 6) as usize;
+            let sizes: Vec<usize> = (0..nr).map(|_| rng.range(1, 9) as usize).collect();
+            let f = Forest::new(500 + k, &sizes);
+            let shapes = if thorough { 4 } else { 3 };
+            for _ in 0..shapes {
+                // leaves from a random non-empty subset of the ranges
+                let mut leaves: Vec<Vec<u8>> = vec![];
+                for t in &f.subs {
+                    if rng.chance(2, 3) {
+                        for _ in 0..rng.range(1, 3) {
+                            leaves.push(t.leaves[rng.below(t.leaves.len() as u64) as usize].clone());
+                        }
+                    }
+                }
+                if leaves.is_empty() {
+                    leaves.push(f.subs[0].leaves[0].clone());
+                }
+                leaves.sort();
+                leaves.dedup();
+                let base = f.honest(&leaves);
+                let mk_queries = |rng: &mut Rng| -> Vec<BV> {
+                    let mut q: Vec<BV> = leaves.iter().take(4).map(|l| (l.clone(), M::Raw(l.clone()))).collect();
+                    let t = &f.subs[rng.below(f.subs.len() as u64) as usize];
+                    let o = t.leaves[rng.below(t.leaves.len() as u64) as usize].clone();
+                    q.push((o.clone(), M::Raw(o)));
+                    let fk = rng.below(1 << 20);
+                    q.push((fake_bytes(fk), M::Raw(fake_bytes(fk))));
+                    q.push((fake_bytes(fk + 1), M::Raw(fake_bytes(fk + 1))));
+                    let names = f.names();
+                    q.push((f.master.leaves[0].clone(), names(&f.master.leaves[0])));
+                    q.push((t.root.clone(), names(&t.root)));
+                    q.push((key_bytes(&f.keys[0]), M::Raw(key_bytes(&f.keys[0]))));
+                    q
+                };
+                {
+                    let mut r = rng.fork();
+                    if let Some(id) = sink.wants() {
+                        let b = base.as_ref().expect("honest map proof");
+                        let q = mk_queries(&mut r);
+                        push_map(sink, id, &f, "honest", b, &q, Expect::Accept);
+                    }
+                }
+                let nm = if thorough { 6 } else { 4 };
+                for _ in 0..nm {
+                    let mut r = rng.fork();
+                    let w = rng.below(N_MAPMUT);
+                    let Some(id) = sink.wants() else { continue };
+                    let b = base.as_ref().expect("honest map proof");
+                    let (kind, p, e) = mutate_map(&f, b, &mut r, w);
+                    let mut q = mk_queries(&mut r);
+                    // also ask about everything the mutated proof carries
+                    let mut vals = vec![];
+                    all_leaf_values(&p, &mut vals);
+                    for v in vals.into_iter().take(6) {
+                        if !q.iter().any(|x| x.0 == v.0) {
+                            q.push(v);
+                        }
+                    }
+                    let kind = if kind.starts_with("sub:") || kind.starts_with("master:") { kind.split(':').next().unwrap().to_string() + "-proof-mutated" } else { kind };
+                    push_map(sink, id, &f, &kind, &p, &q, e);
+                }
+            }
+        }
+    }
+}
+
 fn main() {
     let args = hc::parse_args();
     let mut rng = Rng::new(args.seed);
     let mut sink = Sink::new(&args);
+    mmr::run(&mut sink, &mut rng, args.thorough);
     stm::run(&mut sink, &mut rng, args.thorough);
     sink.finish();
 }
